@@ -73,14 +73,9 @@ def rule_sent(ctx):
     except _Raise as r:
         ctx.undecided("C14.sent", w, "flush_keys", "abstract execution raised: %s" % r.text)
         return None
-    reg = layer[1].fields.get("iqRegistry")
-    entries = [v for v in reg[1].values()] if reg and reg[0] == "dict" else []
-    triple = None
-    for v in entries:
-        if v[0] == "list" and len(v[1]) == 3:
-            triple = v[1]
-        elif v[0] == "list" and len(v[1]) == 2 and v[1][1][0] == "list":
-            triple = v[1][1][1]
+    from ..layers import registry_entries
+    ents = registry_entries(layer[1].fields.get("iqRegistry"))
+    triple = list(ents[-1]) if ents else None
     downs = [e for e in flat_effects(it.effects) if e[0] == "DOWN"]
     if triple is None or len(downs) != 1:
         ctx.violate("C14.sent", w, "flush_keys", "flush_keys must register and send exactly one upload request (registered: %s, sent: %d)" % (triple is not None, len(downs)))
